@@ -18,6 +18,9 @@ def run(prop, tier, seed):
     if prop == 'C20':
         from . import engine_fallback
         return engine_fallback.run(prop, tier, seed)
+    if prop == 'C16':
+        from . import engine_locks
+        return engine_locks.run(prop, tier, seed)
     if prop == 'C15':
         from . import engine_batteries
         return engine_batteries.run(prop, tier, seed)
@@ -42,6 +45,9 @@ def replay(path):
     if eng == 'fallback':
         from . import engine_fallback
         return engine_fallback.replay(path)
+    if eng == 'locks':
+        from . import engine_locks
+        return engine_locks.replay(path)
     if eng == 'batteries':
         from . import engine_batteries
         return engine_batteries.replay(path)
